@@ -27,10 +27,11 @@ structure Cfg where
   e4Closed : Bool    -- ext4 Read/Seek check for a closed handle
   e4SkipLe : Bool    -- ext4 Read skips an extent ending exactly at the first block wanted
   sqEmptyOk : Bool   -- squashfs Read with an empty buffer returns (0, nil)
+  e4SkipNeg : Bool   -- ext4 Read passes over an extent that lies wholly before the offset reached (`leftInExtent < 0`)
 deriving Repr, DecidableEq
 
-def Cfg.fixed : Cfg := ⟨true, true, true, true, true⟩
-def Cfg.asFound : Cfg := ⟨false, false, false, false, false⟩
+def Cfg.fixed : Cfg := ⟨true, true, true, true, true, true⟩
+def Cfg.asFound : Cfg := ⟨false, false, false, false, false, false⟩
 
 /-- file bytes `[off, off+len)`, the target of one device read -/
 structure Seg where
@@ -131,7 +132,8 @@ def ext4Loop (c : Cfg) (bs btr rsb : Nat) : List Ext → Nat → Nat → List Se
       if off < e.fileBlock * bs then .hole off                -- `fl.offset < holeEnd`: a hole in front of this extent
       else
         let sp := off - e.fileBlock * bs
-        if extentSize < sp then .panic off                    -- leftInExtent < 0 → make([]byte, <0)
+        if extentSize < sp then                                -- leftInExtent < 0: `continue` (repaired) or make([]byte, <0)
+          (if c.e4SkipNeg then ext4Loop c bs btr rsb es off rb segs else .panic off)
         else
           let toRead := min (btr - rb) (extentSize - sp)
           let segs' := segs ++ [⟨off, toRead⟩]
